@@ -388,6 +388,10 @@ func MetaDataKVHandler(resHolder *SearchResult, attrGetter AttributeGetter, addi
 					continue
 				}
 				mch, val := convertFilterValue(fs[i].SearchFilter)
+				if mch == object.MatchNotPresent {
+					// the key belongs to an object having the primary attribute
+					return true
+				}
 				var matches bool
 				if IsIntegerSearchOp(mch) {
 					matches = fs[i].AutoMatch || intBytesMatch(primDBVal, mch, fs[i].Raw)
